@@ -8,6 +8,7 @@ import (
 	"testing"
 
 	ucfg "github.com/elastic/go-ucfg"
+	"github.com/elastic/go-ucfg/cfgutil"
 	"pgregory.net/rapid"
 
 	"verif/harness/internal/canon"
@@ -37,6 +38,9 @@ type Case struct {
 	// provenance: the source was loaded with MetaData{Source: "src.yml"} / the merge call passes MetaData{Source: "merge.yml"}
 	SrcMeta   bool `json:"srcmeta,omitempty"`
 	MergeMeta bool `json:"mergemeta,omitempty"`
+	// ViaCollector: the destination is the configuration of a cfgutil.Collector created without one, to which the
+	// source is added first and the destination data afterwards (a merge entry point of the helper package)
+	ViaCollector bool `json:"viacollector,omitempty"`
 	Ops     []Op         `json:"ops"`
 }
 
@@ -57,6 +61,7 @@ func genCase(t *rapid.T) Case {
 		ViaNew: rapid.IntRange(0, 5).Draw(t, "vianew") == 0,
 		NoSep:  rapid.IntRange(0, 3).Draw(t, "nosep") == 0,
 	}
+	c.ViaCollector = rapid.IntRange(0, 7).Draw(t, "viacollector") == 0
 	c.SrcMeta = rapid.IntRange(0, 2).Draw(t, "srcmeta") == 0
 	c.MergeMeta = rapid.IntRange(0, 2).Draw(t, "mergemeta") == 0
 	n := rapid.IntRange(1, 6).Draw(t, "nops")
@@ -243,7 +248,19 @@ func runCase(c Case, r *runlog.R) error {
 	r.ClassIf(c.SrcMeta, "source carries metadata")
 	r.ClassIf(c.MergeMeta, "merge call passes MetaData")
 	var D *ucfg.Config
-	if c.ViaNew {
+	if inCfg, isCfg := in.(*ucfg.Config); c.ViaCollector && isCfg {
+		col := cfgutil.NewCollector(nil, mopts...)
+		if err := uc.Safe("Collector.Add", func() error { return col.Add(inCfg, nil) }); err != nil {
+			return fmt.Errorf("Collector.Add(source) failed: %v", err)
+		}
+		second, err := ucfg.NewFrom(c.Dst.Go(), opts...)
+		if err != nil {
+			return fmt.Errorf("building the destination failed: %v", err)
+		}
+		uc.Safe("Collector.Add", func() error { return col.Add(second, nil) })
+		D = col.Config()
+		r.Class("destination collected by a cfgutil.Collector")
+	} else if c.ViaNew {
 		if err := uc.Safe("NewFrom", func() (e error) { D, e = ucfg.NewFrom(in, mopts...); return }); err != nil {
 			if c.Embed >= 9 && !strings.Contains(err.Error(), "panicked") {
 				if e := src.unchanged(opts, "by a rejected NewFrom that embeds it"); e != nil {
@@ -335,6 +352,37 @@ func runCase(c Case, r *runlog.R) error {
 		target.snap(opts)
 		if err := parentLinks(target.c, fmt.Sprintf("%s after op %d (%s)", target.name, i, what)); err != nil {
 			return err
+		}
+	}
+	// (4) one read that evaluates references of BOTH trees (the destination read with the source as Env config,
+	// and the other way round): each side's references still resolve in its own tree
+	if c.Refs {
+		for _, pair := range [][2]*side{{dst, src}, {src, dst}} {
+			self, env := pair[0], pair[1]
+			wantR1, e1 := self.c.String("r1", -1, opts...)
+			envR1, e2 := env.c.String("r1", -1, opts...)
+			if e1 != nil || e2 != nil {
+				continue
+			}
+			if uc.Safe("Merge", func() error { return env.c.Merge(map[string]interface{}{"envonly": "${r1}"}, opts...) }) != nil {
+				continue
+			}
+			if uc.Safe("Merge", func() error { return self.c.Merge(map[string]interface{}{"viaenv": "${envonly}"}, opts...) }) != nil {
+				continue
+			}
+			self.c.Remove("envonly", -1, opts...)
+			var to struct {
+				Via string `config:"viaenv"`
+				R1  string `config:"r1"`
+			}
+			lopts := append(append([]ucfg.Option{}, opts...), ucfg.Env(env.c))
+			if err := uc.Safe("Unpack", func() error { return self.c.Unpack(&to, lopts...) }); err != nil {
+				continue
+			}
+			if to.R1 != wantR1 || to.Via != envR1 {
+				return fmt.Errorf("the %s read with the %s as Env config in one call: r1 = %q (alone %q), a reference provided by the Env config = %q (the Env config's own r1 is %q)", self.name, env.name, to.R1, wantR1, to.Via, envR1)
+			}
+			r.Class("both trees evaluated in one read")
 		}
 	}
 	overlap := false
